@@ -62,6 +62,13 @@ def special_progs(rng):
     for x in q["tree"]["imports"]:
         x["inline"] = True; x["pkg"] = 0
     out.append(q)
+    # a binding whose concrete type is an interface type provided by a function; both consumed
+    q = P(synth.mkset(0, [], [mk(1, 4, [0, 2]), mk(2, 2, [])], [], [], [{"id": 1, "iface": 0, "conc": 2}]), [], 4, "none:bind-to-interface-type")
+    q["kinds"] = {0: "iface", 1: "iface"}
+    out.append(q)
+    q = P(synth.mkset(0, [], [mk(1, 4, [0]), mk(2, 2, [])], [], [], [{"id": 1, "iface": 0, "conc": 2}]), [], 4, "none:bind-to-interface-type-only-bound-used")
+    q["kinds"] = {0: "iface", 1: "iface"}
+    out.append(q)
     # binding direct in Build, concrete type reached before the interface
     out.append(P(synth.mkset(0, [], [mk(1, 3, []), mk(2, 4, [3, 0])], [], [], [{"id": 1, "iface": 0, "conc": 3}]), [], 4, "none:concrete-first"))
     out.append(P(synth.mkset(0, [], [mk(1, 3, []), mk(2, 4, [6, 0]), mk(3, 6, [3])], [], [], [{"id": 1, "iface": 0, "conc": 3}]), [], 4, "none:concrete-deep"))
@@ -99,6 +106,22 @@ def special_progs(rng):
         out.append(q)
     # values of T and *T in one injector (two value variables derived from one type name)
     out.append(P(synth.mkset(0, [], [mk(1, 0, [2, 3])], [{"id": 5, "out": 2}, {"id": 6, "out": 3}]), [], 0, "none:two-values-one-name"))
+    # two selected struct fields of one type, declared after a prevented field ("*") and after an unselected field (explicit list)
+    def reset_struct(q, args):
+        for x in spec.all_sets(q["tree"]):
+            for pr in x["providers"]:
+                if pr["struct"]:
+                    pr["args"] = list(args); pr["fields"] = ["F%d" % i for i in range(len(args))]
+                    pr.pop("_custom_lits", None); pr.pop("_lit_defect", None)
+    q = P(synth.mkset(0, [], [mk(1, [0, 1], [2, 2], struct=True), mk(2, 2, [])]), [], 0, "dup-field:after-prevented", cleanup=False, err=False)
+    q["star"] = True; q["extra_fields"] = {0: {"name": "X1", "t": 4, "tag": 'wire:"-"', "first": True}}; reset_struct(q, [2, 2])
+    out.append(q)
+    q = P(synth.mkset(0, [], [mk(1, [0, 1], [2, 2], struct=True), mk(2, 2, [])]), [], 0, "dup-field:after-unselected", cleanup=False, err=False)
+    q["star"] = False; q["extra_fields"] = {0: {"name": "X1", "t": 4, "tag": "", "first": True}}; reset_struct(q, [2, 2])
+    out.append(q)
+    q = P(synth.mkset(0, [], [mk(1, [0, 1], [2, 4], struct=True), mk(2, 2, []), mk(3, 4, [])]), [], 0, "none:fields-after-prevented", cleanup=False, err=False)
+    q["star"] = True; q["extra_fields"] = {0: {"name": "X1", "t": 2, "tag": 'wire:"-"', "first": True}}; reset_struct(q, [2, 4])
+    out.append(q)
     # two parameters of one separately written composite type
     out.append(P(synth.mkset(0, [], [mk(1, 0, [3, 3]), mk(2, 3, [])]), [], 0, "dup-param:pointer"))
     out.append(P(synth.mkset(0, [synth.mkset(1, [], [mk(1, 0, [2, 5, 5]), mk(2, 5, []), mk(3, 2, [])])]), [], 0, "dup-param:pointer-nested"))
@@ -120,6 +143,10 @@ def gen_progs(rng, n, pid):
             opts["full_sig"] = rng.random() < 0.8
         if pid == "C12":
             opts["lit_p"] = 0.35
+        if pid in ("C09", "C12"):
+            opts["dup_field_p"] = 0.15
+        if pid in ("C11", "C02"):
+            opts["iface_conc_p"] = 0.35
         if pid in ("C13", "C01", "C19"):
             opts["unexported_p"] = 0.3
         if pid in ("C01", "C19", "C10"):
